@@ -56,8 +56,10 @@ def run(ctx):
     # ---------------------------------------------------------------- R17b (read cache)
     fp = cr.fn("serde::read_cache_lookup::ReadCacheLookup::find_paths")
     ck.analysed(fp)
-    pushes = [(b, t) for b, t in fp.calls() if (t.get("callee") or "").endswith("Vec::<T, A>::push")
-              and "possible_responses" in show(fp.expr_op(t["args"][0], deep=False))]
+    # the candidate list is recognised by what is pushed onto it (a finished path), not by its name;
+    # parameters by position: (self, id $2, serialized_length $3)
+    pushes = [(b, t) for b, t in fp.calls() if (t.get("callee") or "").endswith("Vec::<T, A>::push") and len(t["args"]) > 1
+              and "reversed_path_to_vec_u8(" in show(fp.expr_op(t["args"][1]))]
     alb = fp.calls_to("serde::serialized_length::atom_length_bits")
     ok = len(pushes) == 1 and len(alb) == 1
     det = {}
@@ -70,13 +72,15 @@ def run(ctx):
         for b in fp.reachable_blocks():
             if fp.term(b)["k"] == "switch":
                 nrm = compare_norm(fp.switch_cond(b))
-                if nrm and "serialized_length" in nrm[0] and any("atom_length_bits" in k or "path_len" in k for k in nrm[0]):
+                if nrm:
+                    nrm = (fp.unparam(nrm[0]), nrm[1], nrm[2])
+                if nrm and "$3" in nrm[0] and any("atom_length_bits" in k for k in nrm[0]):
                     guard = (b, nrm)
         det["guard"] = show_norm(guard[1]) if guard else None
         if guard:
             b, nrm = guard
             terms = dict(nrm[0])
-            sl = terms.pop("serialized_length")
+            sl = terms.pop("$3")
             rest = list(terms.items())
             be = fp.bool_edges(b)
             # path_len <= serialized_length - 1   <=>   serialized_length - path_len > 0
@@ -86,9 +90,9 @@ def run(ctx):
     ck.ob("R17b", fp.path, ok,
           "a candidate path is kept only if atom_length_bits(bits + 1 terminator) <= serialized_length - 1 (one byte for the 0xfe marker)",
           site=fp.where(pushes[0][0]) if pushes else fp.where(0), detail=det)
-    mins = [show_norm(compare_norm(fp.switch_cond(b))) for b in fp.reachable_blocks() if fp.term(b)["k"] == "switch"
-            and compare_norm(fp.switch_cond(b)) and list(compare_norm(fp.switch_cond(b))[0]) == ["serialized_length"]]
-    ck.ob("R17b", fp.path + "|minimum", "-serialized_length +4 >0" in mins, "nodes shorter than 4 bytes are never replaced", site=fp.where(0), detail=mins)
+    mins = [fp.unparam(show_norm(compare_norm(fp.switch_cond(b)))) for b in fp.reachable_blocks() if fp.term(b)["k"] == "switch"
+            and compare_norm(fp.switch_cond(b)) and list(fp.unparam(compare_norm(fp.switch_cond(b))[0])) == ["$3"]]
+    ck.ob("R17b", fp.path + "|minimum", "-$3 +4 >0" in mins, "nodes shorter than 4 bytes are never replaced", site=fp.where(0), detail=mins)
     # tree cache
     tf = cr.fn("serde::tree_cache::TreeCache::find_path")
     ck.analysed(tf)
@@ -133,11 +137,10 @@ def run(ctx):
         for pb, _ in rc_push:
             ws = [wb for wb, _ in wa if f.question_mark(wb) and f.dominates(f.question_mark(wb)[0], pb)]
             ok = ok and len(ws) == 1
-    ops = [(b, show(f.expr_op(t["args"][1], deep=False))) for b, t in f.calls()
-           if (t.get("callee") or "").endswith("Vec::<T, A>::push") and "read_op_stack" in show(f.expr_op(t["args"][0], deep=False))]
-    ws_ = [(b, show(f.expr_op(t["args"][1], deep=False))) for b, t in f.calls()
-           if (t.get("callee") or "").endswith("Vec::<T, A>::push") and "write_stack" in show(f.expr_op(t["args"][0], deep=False))]
-    order_ok = [v for _, v in sorted(ws_)] == ["right", "left"] and sorted(v for _, v in ops) == ["Cons()", "Parse()", "Parse()"]
+    # the two work lists are found by element type (ReadOp / NodePtr); a pushed child by which field of the pair it is
+    ops = mir.vec_pushes(f, "ReadOp")
+    ws_ = mir.vec_pushes(f, "NodePtr")
+    order_ok = [v for _, v in sorted(ws_)] == ["child1", "child0"] and sorted(v for _, v in ops) == ["Cons()", "Parse()", "Parse()"]
     ck.ob("R17c", f.path, ok and order_ok,
           "atom / back-reference: bytes written, then exactly one read-cache push; cons: marker, children pushed right-then-left (left is written first), one Cons step that pops two and conses",
           site=f.where(0), detail={"read_cache pushes": len(rc_push), "write_atom": len(wa), "pop2_and_cons": len(p2c), "op pushes": [v for _, v in ops],
@@ -145,6 +148,5 @@ def run(ctx):
     # the Cons handling loop pops the op before consing
     if p2c:
         cb = p2c[0][0]
-        pops = [b for b, t in f.calls() if (t.get("callee") or "").endswith("Vec::<T, A>::pop") and "read_op_stack" in show(f.expr_op(t["args"][0], deep=False))
-                and f.dominates(b, cb) and f.in_loop(b)]
+        pops = [b for b in mir.vec_pops(f, "ReadOp") if f.dominates(b, cb) and f.in_loop(b)]
         ck.ob("R17c", f.path + "|cons step", len(pops) >= 1, "each pop2_and_cons is paired with popping one Cons step", site=f.where(cb))
